@@ -305,7 +305,7 @@ def argument (ts : List Tok) : PR ANode :=
     match expect .equal r with
     | .error e => .error e
     | .ok (_, r1) =>
-      match expression (r1.length + 2) r1 with
+      match expression (2 * r1.length + 2) r1 with
       | .error e => .error e
       | .ok (v, rest) =>
         match t.val with
